@@ -34,7 +34,9 @@ def gen_case(rnd, tier: str, i: Any) -> Dict[str, Any]:
         tr = gen_sim.gen_trace(rnd, **p)
         gen_sim.drop_events(rnd, tr, p_launch=rnd.choice([0, 0, 0.1]), p_kernel=rnd.choice([0, 0, 0.1]))
         files[f"rank{r}.json"] = tr
-    return {"files": files}
+    # history: the call graph may be built more than once over the same loaded Trace (every call of
+    # get_frequent_cuda_kernel_sequences does it)
+    return {"files": files, "builds": rnd.choice([1, 1, 2, 3])}
 
 
 def run_case(case: Dict[str, Any], ctx: Any) -> core.CaseResult:
@@ -56,9 +58,14 @@ def run_case(case: Dict[str, Any], ctx: Any) -> core.CaseResult:
         if not ok:
             return res
         from hta.common.trace_call_graph import CallGraph
-        ok, cg = drv.guard(res, "CallGraph", CallGraph, t, None)
-        if not ok:
-            return res
+        for b in range(case.get("builds", 1)):
+            ok, cg = drv.guard(res, "CallGraph" if b == 0 else f"CallGraph (build #{b + 1} on the same Trace)", CallGraph, t, None)
+            if not ok:
+                return res
+        if case.get("builds", 1) > 1:
+            res.counters["rebuilt_call_graphs"] += 1
+            if any(len(x) > 127 for x in ld.kept.values()):
+                res.counters["rebuilt_call_graphs_gt_127_events"] += 1
         nontrivial = False
         for r, m in models.items():
             if not ld.kept[r]:
